@@ -25,8 +25,8 @@ func runC19(opt *Options) int {
 			{Name: "K7.group", Pkg: "config/parse", Harness: "VerifHarness_C19_Group", Unwind: 48, SetInts: ints, MaxPaths: 2000000},
 			{Name: "K7.command", Pkg: "config/parse", Harness: "VerifHarness_C19_Command", Unwind: 24},
 			{Name: "K7.marker", Pkg: "config/parse", Harness: "VerifHarness_C19_Marker", Unwind: 48},
-			{Name: "K7.variables", Pkg: "comments", Harness: "VerifHarness_C19_Variables", Unwind: 64},
-			{Name: "K7.interface", Pkg: "comments", Harness: "VerifHarness_C19_Interface", Unwind: 64},
+			{Name: "K7.variables", Pkg: "comments", Harness: "VerifHarness_C19_Variables", Unwind: 200},
+			{Name: "K7.interface", Pkg: "comments", Harness: "VerifHarness_C19_Interface", Unwind: 200},
 			{Name: "K7.trailing", Pkg: "comments", Harness: "VerifHarness_C19_Trailing", Unwind: 64},
 			{Name: "K7.specgroup", Pkg: "comments", Harness: "VerifHarness_C19_Group", Unwind: 64},
 			{Name: "K7.localconfig", Pkg: "pkgload", Harness: "VerifHarness_C19_LocalConfig", Unwind: 64},
@@ -34,6 +34,7 @@ func runC19(opt *Options) int {
 			{Name: "K7.filescan", Pkg: "comments", Harness: "VerifHarness_C19_ParseDocsFiles", Unwind: 64, E2E: "c19"},
 			{Name: "K7.nomarker", Pkg: "comments", Harness: "VerifHarness_C19_NoMarker", Unwind: 64},
 			kernelConverterLines("c19"),
+			{Name: "K6.methodlines", Pkg: "config", Harness: "VerifHarness_C12_MethodLines", Unwind: 64, E2E: "c19", Stub: []string{"github.com/jmattheis/goverter/method.Parse", "(*github.com/jmattheis/goverter/pkgload.PackageLoader).GetOne"}},
 		},
 		Funcs:     []string{"comments.parseGenDecl", "comments.parseFunctions", "comments.parseInterface", "comments.parseInterfaceMethods", "comments.parseRawLines", "pkgload.(*PackageLoader).localConfig (doc comments of custom functions)", "go/ast (Pos, Ident.String, ... executed like the code under test)", "parse.CommentToString", "parse.stripTrailingWhitespace", "parse.isWhitespace", "parse.SettingLines", "parse.Command"},
 		E2EAlways: "c19",
